@@ -53,12 +53,12 @@ def _kaykobad(draw):
 
 
 @st.composite
-def _case(draw):
-    if draw(st.integers(0, 5)) == 0:
+def _case(draw, shapes=("random", "random", "elimonly", "chain", "bounds", "bounds", "degenerate"), kay=True):
+    if kay and draw(st.integers(0, 5)) == 0:
         return draw(_kaykobad())
     nv = draw(st.integers(2, 6))
     pool = gens.NAMES[:nv]
-    shape = draw(st.sampled_from(["random", "random", "elimonly", "chain", "bounds", "bounds", "degenerate"]))
+    shape = draw(st.sampled_from(list(shapes)))
     nel = draw(st.integers(1, min(3, nv - 1)))
     if shape == "chain":
         nel = min(max(nel, 2), nv - 1) if nv >= 3 else 1
@@ -112,6 +112,11 @@ def _case(draw):
 
 def strategy(tier):
     return _case()
+
+
+def deep_strategy():
+    """the shapes that reach the rarely executed branches of the tactics (used by C14 with extra weight)"""
+    return st.one_of(_case(("chain", "chain", "degenerate", "elimonly"), kay=False), _kaykobad())
 
 
 # ---- bounded-exhaustive grid --------------------------------------------------
